@@ -102,7 +102,12 @@ func discharge(o *Obligation, dir string, idx int, opts solveOpts) {
 		defer os.Remove(file)
 	}
 	try := func(timeoutS int) bool {
-		r, out, ms := runSolver(solvers[0], file, timeoutS)
+		// quick attempt with the usually fastest solver, then race all three for the full budget
+		quick := 2
+		if timeoutS < quick {
+			quick = timeoutS
+		}
+		r, out, ms := runSolver(solvers[0], file, quick)
 		o.Ms += ms
 		if r == "unsat" || r == "sat" {
 			o.Result, o.Solver, o.Output = r, solvers[0].name, out
@@ -124,15 +129,20 @@ func discharge(o *Obligation, dir string, idx int, opts solveOpts) {
 			ms     int64
 		}
 		ch := make(chan res, 2)
-		for _, s := range solvers[1:] {
+		ch = make(chan res, 3)
+		for _, s := range solvers {
 			go func(s solverCfg) {
 				r, out, ms := runSolver(s, file, timeoutS)
 				ch <- res{r, out, s.name, ms}
 			}(s)
 		}
 		var got []res
-		for i := 0; i < 2; i++ {
-			got = append(got, <-ch)
+		for i := 0; i < 3; i++ {
+			g := <-ch
+			got = append(got, g)
+			if g.r == "unsat" || g.r == "sat" {
+				break // first decisive answer wins (the others are left to their own time limit)
+			}
 		}
 		var maxMs int64
 		for _, g := range got {
@@ -155,9 +165,9 @@ func discharge(o *Obligation, dir string, idx int, opts solveOpts) {
 		}
 		if r == "timeout" {
 			o.Result = "timeout"
-		} else if r == "error" && got[0].r == "error" && got[1].r == "error" {
+		} else if len(got) == 3 && got[0].r == "error" && got[1].r == "error" && got[2].r == "error" {
 			o.Result = "error"
-			o.Output = out + "\n" + got[0].out + "\n" + got[1].out
+			o.Output = got[0].out + "\n" + got[1].out + "\n" + got[2].out
 		} else {
 			o.Result = "unknown"
 		}
